@@ -289,6 +289,12 @@ def return_origins(repo, ci, func, depth=0, _seen=None, exprs=None):
             return
         if isinstance(e, ast.Call):
             fn = canon(e.func)
+            if fn == "getattr" and len(e.args) >= 2:
+                yield ("shared", e, "attribute %s" % canon(e)[:50])
+                if len(e.args) == 3:
+                    for r in origin(e.args[2], stack):
+                        yield r
+                return
             if fn in FRESH_CALLS:
                 yield ("fresh", e, canon(e)[:60])
                 return
